@@ -120,7 +120,7 @@ func genC07(t *rapid.T) c07Case {
 	if thorough {
 		maxDepth = 8
 	}
-	g := &fgen{t: t, maxAtoms: 8, maxDepth: rapid.IntRange(1, maxDepth).Draw(t, "depth"), maxWidth: 3, budget: 10, quant: true, edges: 3, allRows: true}
+	g := &fgen{t: t, maxAtoms: 8, maxDepth: rapid.IntRange(1, maxDepth).Draw(t, "depth"), maxWidth: 3, budget: 10, quant: true, edges: 3, allRows: true, constants: true}
 	// the package name of the policy is derived from the profile name: a name the translator invents
 	p := &m.Profile{Name: pick(t, []string{"c07", "Profile 7", "a-b_c", "9 lives", "Perfil de validación", "プロファイル", "--", "Ünïcode-Ærøå", "data", "input", "package", "default"}, "pname")}
 	nv := rapid.IntRange(1, 8).Draw(t, "validations")
